@@ -11,7 +11,7 @@ def rounds(ctx):
   if not ctx.thorough:
     return [
         dict(name='optimal_added_d4', consts=speca.constants(
-            MaxDepth=4, MaxId=3, Clients={'w1'}, Params={'p1'}, Meas={'m1', 'm2', 'm3', 'mp', 'mn'}, Cfgs={'max1', 'min1', 'maxmin2'},
+            MaxDepth=4, MaxId=3, Clients={'w1'}, Params={'p1'}, Meas={'m1', 'm2', 'm3', 'mp', 'mn', 'mi', 'mj'}, Cfgs={'max1', 'min1', 'maxmin2'},
             Kinds={'CreateStudy', 'CreateTrial', 'ListOptimalTrials'}),
              expect=EXPECT[:2], backends={'ram': 1.0, 'sqlmem': 0.3}, relevant={'ListOptimalTrials'}),
         dict(name='optimal_lifecycle_d5', consts=speca.constants(
@@ -38,7 +38,7 @@ def walks(ctx):
   out = []
   for cfg in ('max1', 'min1', 'maxmin2'):
     out.append(dict(name='optimal_' + cfg, conf=conf, n=n // 3 + 1, length=40, kinds=kinds,
-                    opts={'Cfgs': [cfg], 'Meas': ['m1', 'm2', 'm3', 'mp', 'mn']}, backends=['ram'] + (['sqlmem'] if cfg == 'maxmin2' else [])))
+                    opts={'Cfgs': [cfg], 'Meas': ['m1', 'm2', 'm3', 'mp', 'mn', 'mi', 'mj']}, backends=['ram'] + (['sqlmem'] if cfg == 'maxmin2' else [])))
   return out
 
 
